@@ -94,6 +94,8 @@ pub struct HostState {
     pub key_hex_upper: bool,
     pub faults: BTreeMap<&'static str, VecDeque<HostFault>>,
     pub resp_specs: BTreeMap<String, RespSpec>, // by token
+    /// client requests (by token) that a scripted host fault was applied to
+    pub faulted_tokens: BTreeMap<String, HostFault>,
     pub telemetry_script: VecDeque<u16>,        // statuses for successive telemetry uploads (empty = 200)
     pub history: Vec<String>,                   // protocol-level trace for C08/C09
     pub notify: Arc<tokio::sync::Notify>,
@@ -134,6 +136,7 @@ pub fn new_state(seed: u64) -> Shared {
         key_hex_upper: true,
         faults: BTreeMap::new(),
         resp_specs: BTreeMap::new(),
+        faulted_tokens: BTreeMap::new(),
         telemetry_script: VecDeque::new(),
         history: Vec::new(),
         notify: Arc::new(tokio::sync::Notify::new()),
@@ -409,10 +412,19 @@ fn handle(st: &Shared, host: &'static str, conn: u64, idx: usize, m: Msg) -> Ans
     g.seq += 1;
     let seq = g.seq;
     let latched_at_recv = g.latched.as_ref().map(|(a, _)| a.clone());
+    // scripted faults are queued per request kind; requests of local clients (they carry a token) additionally draw
+    // from the "client" queue, whatever their URL classifies as
     let fault = match kind {
         "echo" => None,
         k => g.take_fault(k),
     };
+    let fault = match fault {
+        None if token.is_some() => g.take_fault("client"),
+        f => f,
+    };
+    if let (Some(f), Some(t)) = (&fault, &token) {
+        g.faulted_tokens.insert(t.clone(), f.clone());
+    }
     let mut ans;
     let mut process = true;
     if let Some(HostFault::ResetBefore) = fault {
@@ -544,11 +556,20 @@ fn handle(st: &Shared, host: &'static str, conn: u64, idx: usize, m: Msg) -> Ans
             }
         }
     };
-    // apply scripted fault
+    // apply scripted fault (the answer to a HEAD request never carries a body, whatever its status)
+    let head_only = m.method() == "HEAD";
+    let simple_m = |status: u16, ctype: &str, body: &[u8]| -> Answer {
+        let mut a = simple(status, ctype, body);
+        if head_only {
+            let hs = vec![("Content-Type".to_string(), ctype.as_bytes().to_vec())];
+            a.bytes = http::build_response(status, http::reason(status), &hs, Body::Len(body), true);
+        }
+        a
+    };
     match fault {
-        Some(HostFault::Status(s)) => ans = simple(s, "text/plain", format!("injected error {}", s).as_bytes()),
-        Some(HostFault::StatusWithBody(s, b, ct)) => ans = simple(s, &ct, &b),
-        Some(HostFault::MalformedBody(b, ct)) => ans = simple(200, &ct, &b),
+        Some(HostFault::Status(s)) => ans = simple_m(s, "text/plain", format!("injected error {}", s).as_bytes()),
+        Some(HostFault::StatusWithBody(s, b, ct)) => ans = simple_m(s, &ct, &b),
+        Some(HostFault::MalformedBody(b, ct)) => ans = simple_m(200, &ct, &b),
         Some(HostFault::ResetBefore) => {
             ans.reset = true;
             ans.status = 0; // never processed, never answered
